@@ -24,6 +24,8 @@ import (
 	"reflect"
 	"sort"
 	"strings"
+	"sync/atomic"
+	"syscall"
 	"time"
 
 	"github.com/awslabs/ar-go-tools/analysis/config"
@@ -569,7 +571,9 @@ func run(dir string, o *out, r *rng, opt options) (progResult, error) {
 	// ---- baseline run with the built-in monotonicity check switched on
 	escape.VerifMonoEnable(true)
 	t0 := time.Now()
+	beginPhase("EscapeAnalysis (the code's own worklist order) on " + dir)
 	base, err := escape.EscapeAnalysis(state, state.PointerAnalysis.CallGraph.Root)
+	endPhase()
 	res.BaselineSec = time.Since(t0).Seconds()
 	if err != nil {
 		return res, fmt.Errorf("escape analysis %s: %v", dir, err)
@@ -853,7 +857,9 @@ func run(dir string, o *out, r *rng, opt options) (progResult, error) {
 		if monoOn {
 			escape.VerifMonoEnable(true)
 		}
+		beginPhase(fmt.Sprintf("permuted worklists run %d (%s) on %s", k, mode, dir))
 		p, stats, err := escape.VerifEscapeAnalysisPermuted(state, func(n int) int { return pr.n(n) }, mode, 200000)
+		endPhase()
 		res.PermRuns++
 		res.PermSteps = append(res.PermSteps, stats.FunctionSteps)
 		if err != nil {
@@ -953,8 +959,43 @@ func monoKey(v escape.VerifMonoViolation) string {
 	return generic
 }
 
+// ---------------------------------------------------------------------------------------------- CPU-time watchdog
+// A fixpoint iteration that does not converge burns CPU without end.  Wall-clock limits are useless on a loaded
+// machine, so the dump measures the CPU time (user+system, whole process) consumed since the start of the current
+// escape-analysis phase; beyond the limit it records the phase in nonterm.txt and exits with status 4.
+var phaseName atomic.Value
+var phaseStart atomic.Int64 // CPU milliseconds at phase start, -1 = no phase running
+
+func cpuMillis() int64 {
+	var ru syscall.Rusage
+	if err := syscall.Getrusage(syscall.RUSAGE_SELF, &ru); err != nil {
+		return 0
+	}
+	return (ru.Utime.Sec+ru.Stime.Sec)*1000 + int64(ru.Utime.Usec+ru.Stime.Usec)/1000
+}
+
+func beginPhase(name string) { phaseName.Store(name); phaseStart.Store(cpuMillis()) }
+func endPhase()              { phaseStart.Store(-1) }
+
+func watchdog(outDir string, limitSec int) {
+	for {
+		time.Sleep(500 * time.Millisecond)
+		st := phaseStart.Load()
+		if st < 0 {
+			continue
+		}
+		if used := cpuMillis() - st; used > int64(limitSec)*1000 {
+			name, _ := phaseName.Load().(string)
+			msg := fmt.Sprintf("escape analysis phase %q consumed %d CPU-seconds without reaching its fixpoint (limit %d)\n", name, used/1000, limitSec)
+			_ = os.WriteFile(filepath.Join(outDir, "nonterm.txt"), []byte(msg), 0o644)
+			fmt.Fprint(os.Stderr, msg)
+			os.Exit(4)
+		}
+	}
+}
+
 type options struct {
-	seed, pairs, triples, random, perms, permMono, monoCap, weakTransfer int
+	seed, pairs, triples, random, perms, permMono, monoCap, weakTransfer, cpuLimit int
 }
 
 func main() {
@@ -968,6 +1009,7 @@ func main() {
 	flag.IntVar(&opt.permMono, "perm-mono", 1, "number of permuted runs with the monotonicity check on")
 	flag.IntVar(&opt.monoCap, "mono-cap", 30, "max observations per instruction compared pairwise (0 = all)")
 	flag.IntVar(&opt.weakTransfer, "weak-transfer", 150, "transfer-function applications on weakened graphs per program")
+	flag.IntVar(&opt.cpuLimit, "cpu-limit", 240, "CPU seconds one escape-analysis run may consume before it is declared non-terminating")
 	flag.Parse()
 	if *outDir == "" || flag.NArg() == 0 {
 		fmt.Fprintln(os.Stderr, "usage: c15dump -out DIR [options] programdir...")
@@ -980,6 +1022,8 @@ func main() {
 		}
 	}
 	must(os.MkdirAll(*outDir, 0o755))
+	phaseStart.Store(-1)
+	go watchdog(*outDir, opt.cpuLimit)
 	o := &out{stats: map[string]int{}, opCount: map[string]int{}}
 	var err error
 	o.cases, err = os.Create(filepath.Join(*outDir, "cases.txt"))
